@@ -109,7 +109,43 @@ inline size_t ctl_frozen(const support::Support<D> &s) {
   return cached;
 }
 
+// R-LIFE.ret: reference to a local / to a temporary handed back through an identity helper
+template <typename V>
+const V &ctl_identity(const V &v) {
+  return v;
+}
+inline const support::Grid<D> &ctl_ret_local(const Spline<D, 1> &a) {
+  support::Grid<D> g = a.getSupport().getGrid();
+  return g;
+}
+inline const support::Support<D> &ctl_ret_temporary(const Spline<D, 1> &a) {
+  return ctl_identity((a * 2.0).getSupport());
+}
+// R-API.ret: (synthetic baseline says this returned by value)
+inline const support::Grid<D> &ctl_api_ref(const Spline<D, 1> &a) { return a.getSupport().getGrid(); }
+// R-GRD.fwd: compound operator that skips its member operator on one path
+struct CtlCompound : public operators::Operator {
+  operators::SplineOperator<D, 1> _o1;
+  D _f;
+  CtlCompound(const Spline<D, 1> &s, D f) : _o1{s}, _f{f} {}
+  template <size_t order>
+  static constexpr size_t outputOrder(size_t inputOrder) { return decltype(_o1)::outputOrder(inputOrder); }
+  template <size_t size>
+  auto transform(const std::array<D, size> &input, const support::Grid<D> &grid, size_t intervalIndex) const {
+    if (_f == static_cast<D>(0)) return std::array<D, size + 1>{};
+    return _o1.transform(input, grid, intervalIndex);
+  }
+};
+
 inline void instantiate() {
+  {
+    Spline<D, 1> a0{support::Grid<D>{0.0, 1.0}};
+    (void)ctl_ret_local(a0);
+    (void)ctl_ret_temporary(a0);
+    (void)ctl_api_ref(a0);
+    CtlCompound cc{a0, 1.0};
+    (void)cc.transform(std::array<D, 2>{}, a0.getSupport().getGrid(), 0);
+  }
   (void)ctl_invalidated(Spline<D, 1>{support::Grid<D>{0.0, 1.0}}.getSupport());
   (void)ctl_frozen(Spline<D, 1>{support::Grid<D>{0.0, 1.0}}.getSupport());
   Spline<D, 1> a{support::Grid<D>{0.0, 1.0}};
